@@ -1,7 +1,7 @@
 #!/bin/bash
 # runs every claimed check once on the current tree (regenerates all evidence files); prints one line per property
-cd /verif
+cd "$(dirname "$0")/.."
 for p in $(python3 -c "import json;print(' '.join(c['property_id'] for c in json.load(open('MANIFEST.json'))['checks']))"); do
-  s=$(date +%s); ./check $p --tier ${1:-quick} > /tmp/all_$p.log 2>&1; rc=$?
-  echo "$p rc=$rc $(( $(date +%s) - s ))s $(grep -c '^VIOLATION' /tmp/all_$p.log) violations"
+  s=$(date +%s); ./check $p --tier ${1:-quick} > ${LOGDIR:-/tmp}/all_$p.log 2>&1; rc=$?
+  echo "$p rc=$rc $(( $(date +%s) - s ))s $(grep -c '^VIOLATION' ${LOGDIR:-/tmp}/all_$p.log) violations"
 done
